@@ -9,7 +9,7 @@ from vlib import Infra, CORES
 
 FAMILIES = 9
 PRESETS = 7
-STARTS = ["xor", "rich", "random", "read", "outfirst"]
+STARTS = ["xor", "rich", "random", "read", "outfirst", "notrait", "pool-notrait", "pool-rich"]
 
 
 def scenarios(seed, tier):
@@ -165,8 +165,8 @@ def c02(ctx, replay):
                 "random, structure-driven, tiny distinct positive values around 1e-7) x 7 option presets (many species / stolen babies / fast stagnation with delta coding / one "
                 "species with everybody surviving / heavy stealing with linear compatibility / mating-heavy with interspecies mating / "
                 "several long-lived mid-sized species with heavy stealing) x "
-                "population sizes 3..30 (thorough ..80) x constructors (NewPopulation from three start genomes incl. one whose sensors are not first in id order, NewPopulationRandom, "
-                "ReadPopulation of an evolved population) x sequential and parallel executor; every epoch is one trace line with the "
+                "population sizes 3..30 (thorough ..80) x constructors (NewPopulation from four start genomes incl. one whose sensors are not first in id order and one whose nodes and genes carry no trait, NewPopulationRandom, "
+                "ReadPopulation of an evolved population, populations assembled from the genomes of an operator lineage) x sequential and parallel executor; every epoch is one trace line with the "
                 "whole population, validated by TLC (Trace_Epoch) against the clauses of C02; in addition every behaviour of MC_Quota "
                 "(exhaustive small populations through adjust / apportion / make-up / stolen babies / delta coding) is installed in "
                 "a real population and run through the real prepare, reproduce and finalize phases: quotas, offspring and the final "
